@@ -209,6 +209,11 @@ pub fn c08() -> PropDef {
 // ------------------------------------------------------------------------------------------------ C11
 
 fn adjust_c11(mut case: Case) -> Case {
+    // the burst analysis reads per-thread event order only, but keep the schedules one-thread-at-a-time here
+    if let Mode::Sched(s) = &mut case.mode {
+        s.src_yield = 0;
+        s.drop_yield = 0;
+    }
     // searches must not exit early (an early exit legitimately ends pulling): look for something that never matches
     match &mut case.term {
         Term::Find { mask } | Term::Any { mask } => *mask = 0,
